@@ -197,11 +197,18 @@ class Scheduler:
 
     def main_collect(self):
         """the main thread has a finished work item in hand and is about to process (print) it: a scheduled event like any other"""
+        # taking the item and parking is ONE step under the scheduler's lock: between "taken" and "parked" the controller would see a main
+        # thread that is neither busy nor waiting, conclude that the run is over, and leave it parked for ever (seen twice, under load only)
+        ev = threading.Event()
         with self.cv:
             self.main_gated = True
             self.main_taken += 1
             self.main_busy = False
-        self._park(self.MAIN, 'collect')
+            self.parked[self.MAIN] = 'collect'
+            self.go[self.MAIN] = ev
+            self.cv.notify_all()
+        if not ev.wait(self.wall_limit * 4):
+            raise HarnessError('scheduler: %r never released' % (self.MAIN,))
 
     def main_back(self):
         with self.cv:
